@@ -88,6 +88,11 @@ func AuthenticateObject(obj object.Object, fsChain HistoricN3ScriptRunner, sToke
 
 		k := sha256.Sum256(sessionTokenV2.Marshal())
 		_, err := sTokenCache.AuthenticateTokenV2(k, func() (sessionv2.Token, error) {
+			// signatures say nothing about the delegation chain (issuers vs. origin
+			// subjects, narrowing of verbs and lifetimes)
+			if err := sessionTokenV2.Validate(resolver); err != nil {
+				return sessionv2.Token{}, fmt.Errorf("session token v2: %w", err)
+			}
 			if err := AuthenticateTokenV2(sessionTokenV2, fsChain); err != nil {
 				return sessionv2.Token{}, fmt.Errorf("session token v2: %w", err)
 			}
